@@ -1556,6 +1556,61 @@ def _inline_indexed_comprehensions(fn, rf, log, q):
     ast.fix_missing_locations(fn)
 
 
+def _merge_forwarded_locals(fn, rf, log, q):
+    """A local X the reference does not know whose only read is in
+    `Y = <expr of X>` (Y a recorded local not live in between) is Y under
+    another name: rename X -> Y and drop a resulting `Y = Y`."""
+    ref_locs = set(rf.get('locals', []))
+    for _ in range(12):
+        params, locs = local_order(fn)
+        done = False
+        for x in locs:
+            if x in ref_locs:
+                continue
+            loads = [n for n in _own_nodes(fn) if isinstance(n, ast.Name)
+                     and n.id == x and isinstance(n.ctx, ast.Load)]
+            stores = [n for n in _own_nodes(fn) if isinstance(n, ast.Name)
+                      and n.id == x and isinstance(n.ctx, ast.Store)]
+            # reads inside X's own re-bindings (X = X[...]) do not count
+            own = set()
+            for n in _own_nodes(fn):
+                if isinstance(n, ast.Assign) and any(
+                        isinstance(t, ast.Name) and t.id == x
+                        for t in n.targets):
+                    own |= {id(z) for z in ast.walk(n.value)}
+            loads = [n for n in loads if id(n) not in own]
+            if len(loads) != 1 or not stores:
+                continue
+            host = None
+            for blk in _blocks(fn):
+                for k, st in enumerate(blk):
+                    if isinstance(st, ast.Assign) and len(st.targets) == 1 \
+                            and isinstance(st.targets[0], ast.Name) and any(
+                                n is loads[0] for n in ast.walk(st.value)):
+                        host = (blk, k, st)
+            if host is None:
+                continue
+            blk, k, st = host
+            y = st.targets[0].id
+            if y == x or y not in ref_locs:
+                continue
+            first = min(n.lineno for n in stores)
+            # Y must not be used between the first binding of X and the
+            # forwarding statement
+            if any(isinstance(n, ast.Name) and n.id == y and
+                   first <= n.lineno < st.lineno for n in _own_nodes(fn)):
+                continue
+            _rename(fn, {x: y})
+            if isinstance(st.value, ast.Name) and st.value.id == y:
+                del blk[k]
+            log.append('%s: forwarded local %s merged into %s' % (q, x, y))
+            done = True
+            break
+        if not done:
+            break
+    ast.fix_missing_locations(fn)
+
+
 def _dissolve_built_locals(fn, rf, log, q):
     """`X = D; X[i] = ...; T = X`  ->  `T = D; T[i] = ...` for a local X the
     reference does not know (a container built in a local and stored)."""
@@ -1890,6 +1945,8 @@ def canonicalise(tree, modname, text=None):
         _unroll_literal_loops(fn, rf, log, q)
         _orient_ifs(fn, rf, log, q)
         _loops_to_reference(fn, rf, log, q)
+        _SplitTupleAssign().visit(fn)
+        _merge_forwarded_locals(fn, rf, log, q)
         _dissolve_built_locals(fn, rf, log, q)
         _inline_indexed_comprehensions(fn, rf, log, q)
         _temps_and_names(fn, rf, log, q)
